@@ -71,9 +71,15 @@ def add(a, b_):
     return (a[0] + b_[0], a[1] + b_[1])
 
 
+PROG = None
+PROBLEMS = []
+ANALYSED = {"libp2p_kad::query::peers::closest::ClosestPeersIter::" + x for x in ("next", "on_success", "on_failure", "at_capacity", "into_result", "with_config")}
+
+
 def nw_effects(b):
+    """+1 / -1 sites of num_waiting in b, including calls of private helpers that do exactly one such update on every path"""
     out = []
-    for s, k, t in lk.field_effects(b, F.nw):
+    for s, k, t in lk.with_helpers(PROG, b, lambda x: lk.field_effects(x, F.nw), PROBLEMS, ANALYSED):
         if k == "set" and re.match(r"^Add(WithOverflow)?\(%s, 1\)(\.0)?$" % re.escape(F.NW), t):
             out.append((s, "inc"))
         elif k == "set" and re.match(r"^Sub(WithOverflow)?\(%s, 1\)(\.0)?$" % re.escape(F.NW), t):
@@ -172,7 +178,9 @@ def pairing(ctx, b, fn, exits, stores, eff, min_arms):
 
 
 def check(ctx):
-    prog = lk.canon(ctx)
+    global PROG
+    prog = PROG = lk.canon(ctx)
+    del PROBLEMS[:]
     resolve(prog)
     nx = ctx.body(K, CP + r"next$")
     os_ = ctx.body(K, CP + r"on_success$")
@@ -208,13 +216,16 @@ def check(ctx):
     for b in prog.bodies(K):
         if "query::peers::closest" not in b.npath or "disjoint" in b.npath:
             continue
-        root = lk.root_fn(prog, b).npath.split("::")[-1]
         if lk.field_effects(b, F.nw):
-            writers.add(root)
+            writers.add(lk.root_fn(prog, b))
         if b.field_write_sites(F.p_state, r"closest::Peer$"):
-            pst_writers.add(root)
-    ctx.ob("pairing", "num_waiting written only by next/on_success/on_failure", writers == {"next", "on_success", "on_failure"}, msg=str(sorted(writers)))
-    ctx.ob("pairing", "Peer.state written only by next/on_success/on_failure", pst_writers == {"next", "on_success", "on_failure"}, msg=str(sorted(pst_writers)))
+            pst_writers.add(lk.root_fn(prog, b))
+    three = {"libp2p_kad::query::peers::closest::ClosestPeersIter::" + x for x in ("next", "on_success", "on_failure")}
+    bad = sorted(r.short for r in writers if not lk.allowed_fn(prog, K, r, three))
+    ctx.ob("pairing", "num_waiting written only by next/on_success/on_failure", not bad and three <= {r.npath for r in writers} | three and len(writers) >= 3, msg="writers %s; not permitted %s (private helpers inherit from their callers)" % (sorted(r.short for r in writers), bad))
+    bad = sorted(r.short for r in pst_writers if not lk.allowed_fn(prog, K, r, three))
+    ctx.ob("pairing", "Peer.state written only by next/on_success/on_failure", not bad and len(pst_writers) >= 3, msg="writers %s; not permitted %s" % (sorted(r.short for r in pst_writers), bad))
+    ctx.ob("pairing", "every helper that updates num_waiting has a path-independent effect (summarised at its call sites)", not PROBLEMS, msg=str(sorted(set(PROBLEMS)))[:300])
     wc = ctx.body(K, CP + r"with_config$")
     ags = wc.agg_sites(r"closest::ClosestPeersIter$")
     f = {k: render(v) for k, v in wc.site_expr(ags[0])[4]} if len(ags) == 1 else {}
